@@ -1293,13 +1293,32 @@ fn c03_large(rep: &mut Report, n: usize) {
                 if store == StoreKind::Indexed && n > 4000 {
                     continue; // the indexed store's add_value is quadratic
                 }
-                for order in 0..3 {
+                for order in 0..6 {
+                    // orders 3..5: sorted runs of exactly B entries handed over in descending
+                    // order of runs (every block of B consecutive entries is already ordered,
+                    // the whole is not): B = 1024, 256, 2048
+                    if order >= 3 && !(prefix == 2 && store == StoreKind::Plain) {
+                        continue;
+                    }
                     let mut keys: Vec<Key> = (0..n).map(|i| Key::A(f(i))).collect();
                     keys.sort();
                     keys.dedup();
                     match order {
                         0 => {}
                         1 => keys.reverse(),
+                        3 | 4 | 5 => {
+                            let b = [1024usize, 256, 2048][order - 3];
+                            if keys.len() <= b {
+                                continue;
+                            }
+                            let full = keys.len() / b;
+                            let mut out: Vec<Key> = vec![];
+                            for k in (0..full).rev() {
+                                out.extend_from_slice(&keys[k * b..(k + 1) * b]);
+                            }
+                            out.extend_from_slice(&keys[full * b..]);
+                            keys = out;
+                        }
                         _ => {
                             // deterministic shuffle (stride permutation)
                             let m = keys.len();
